@@ -435,6 +435,24 @@ func (f Fact) SaysNonEmpty(v ssa.Value) bool {
 	return (r.Op == token.NEQ && n == 0) || (r.Op == token.GTR && n == 0) || (r.Op == token.GEQ && n == 1)
 }
 
+// NonEmptySubject returns the value the fact establishes to be non-empty
+// (len(v) != 0, len(v) > 0, v != ""), or nil.
+func (f Fact) NonEmptySubject() ssa.Value {
+	r := f.Rel()
+	if x := StrLenValue(r.X); x != nil {
+		if n, ok := ConstInt(r.Y); ok && ((r.Op == token.NEQ && n == 0) || (r.Op == token.GTR && n == 0) || (r.Op == token.GEQ && n == 1)) {
+			return x
+		}
+		return nil
+	}
+	if r.Op == token.NEQ && r.X != nil {
+		if s, ok := ConstStr(r.Y); ok && s == "" {
+			return r.X
+		}
+	}
+	return nil
+}
+
 // SaysEmpty reports whether the fact establishes len(v) == 0.
 func (f Fact) SaysEmpty(v ssa.Value) bool {
 	r := f.Rel()
